@@ -280,6 +280,9 @@ class Gen(object):
                 dt = 'float32'
             else:
                 dt = 'float64'
+            if r.random() < 0.12:
+                # the same numbers in another memory layout (what a caller's slice or transpose looks like)
+                return ['a', dt, list(shape), pairs, r.choice(['F', 'S', 'S', 'R'])]
             return ['a', dt, list(shape), pairs]
 
         def nest(flat, sh, kindc):
